@@ -35,6 +35,7 @@ class Ctx:
         self.notes = []
         self.samples = []
         self.counters = {}
+        self.attributed = {}
 
     def cleanup(self):
         shutil.rmtree(self.scratch, ignore_errors=True)
@@ -190,7 +191,7 @@ def wrap(steps, bid, **kw):
          "kinds": kw.get("kinds", ["o", "a", "t", "n"]), "init": kw.get("init", []),
          "threshold": kw.get("threshold", 0), "interval": kw.get("interval", 0),
          "setup": kw.get("setup", "none"), "steps": steps, "final": kw.get("final", "quiesce"),
-         "family": kw.get("family", "")}
+         "family": kw.get("family", ""), "guards": kw.get("guards", [])}
     return b
 
 
